@@ -225,9 +225,11 @@ class REPEX_state:
         In case a crash, we pick lock locked from previous simulation.
         """
         if not self.locked0:
-            if "restarted_from" in self.config["current"]:
+            if "restarted_from" in self.config["current"] and not self.locked:
                 # get the same pick() as pre-restart. Need to set it again
                 # because current self.rgen was used for calculating self.prob.
+                # Only before the first pick: resetting it again would hand
+                # the same child streams to the next worker's job.
                 self.set_rgen()
             return self.pick()
 
